@@ -1,6 +1,6 @@
 (* Proofs about model/Meta.v (C06): invariants of every schedule. *)
 From Coq Require Import List NArith Bool Arith Lia.
-From NSQV Require Import model.Judge model.Names model.Meta.
+From NSQV Require Import model.Judge model.Names model.MetaSrc model.Meta.
 Import ListNotations.
 Open Scope nat_scope.
 Open Scope bool_scope.
@@ -30,6 +30,16 @@ Lemma is_topic_spec : forall g n t, is_topic g n t = true <-> t_id t = g /\ t_na
 Proof.
   intros. unfold is_topic. rewrite andb_true_iff, N.eqb_eq, name_eqb_eq. tauto.
 Qed.
+
+(* ------------------------------------------------------------------ the model follows the source *)
+(* gen/MetaShape.v says the deletions persist again after the map removal, so [step] is
+   the post-fix behaviour; this is the proof obligation a revert of that fix breaks *)
+Lemma pad_src_true : pad_src = true.
+Proof. vm_compute. reflexivity. Qed.
+Lemma step_fixed : step = step_ true.
+Proof. unfold step. rewrite pad_src_true. reflexivity. Qed.
+Lemma shape_ok_true : shape_ok = true.
+Proof. vm_compute. reflexivity. Qed.
 
 (* ------------------------------------------------------------------ schedules *)
 Lemma run_app : forall a b s, run s (a ++ b) = run (run s a) b.
@@ -474,7 +484,7 @@ Qed.
 
 Lemma Inv1_step : forall s e, Inv1 s -> Inv1 (step s e).
 Proof.
-  intros s e I. destruct e as [i o|i| |k| |]; unfold step; cbn [step_].
+  intros s e I. destruct e as [i o|i| |k| |]; rewrite step_fixed; cbn [step_].
   - (* EStart *)
     destruct (up s) eqn:Hup; [|exact I].
     destruct (get_thread i (threads s)); [exact I|].
@@ -670,7 +680,7 @@ Qed.
 
 Lemma Inv3_step : forall s e, Inv3 s -> Inv3 (step s e).
 Proof.
-  intros s e I. destruct e as [i o|i| |k| |]; unfold step; cbn [step_].
+  intros s e I. destruct e as [i o|i| |k| |]; rewrite step_fixed; cbn [step_].
   - destruct (up s); [|exact I]. destruct (get_thread i (threads s)); [exact I|].
     intros j q Hin. cbn in Hin. apply in_app_or in Hin. destruct Hin as [Hin|[Hin|[]]]; [eapply I; exact Hin|].
     inversion Hin; subst. cbn. intuition discriminate.
@@ -829,7 +839,7 @@ Definition Inv0 (s : st) : Prop := ids_ok (live_ s) (next_id s).
 
 Lemma Inv0_step : forall s e, Inv0 s -> Inv0 (step s e).
 Proof.
-  intros s e I. unfold Inv0 in *. destruct e as [i o|i| |k| |]; unfold step; cbn [step_].
+  intros s e I. unfold Inv0 in *. destruct e as [i o|i| |k| |]; rewrite step_fixed; cbn [step_].
   - destruct (up s); [|exact I]. destruct (get_thread i (threads s)); exact I.
   - destruct (get_thread i (threads s)) as [[|m rest]|] eqn:Hth; try exact I.
     destruct (exec_live_change true s i m rest) as [Hn [E|[(g & n & f & Hf & E)|[(t & E & En & _)|(t & E & _)]]]]; rewrite E.
@@ -1244,7 +1254,7 @@ Qed.
 
 Lemma Inv2_step : forall s e, Inv0 s -> Inv1 s -> Inv3 s -> Inv2 s -> Inv2 (step s e).
 Proof.
-  intros s e I0 I1 I3 I2. destruct e as [i o|i| |k| |]; unfold step; cbn [step_].
+  intros s e I0 I1 I3 I2. destruct e as [i o|i| |k| |]; rewrite step_fixed; cbn [step_].
   - destruct (up s) eqn:Hup; [|exact I2]. destruct (get_thread i (threads s)); [exact I2|].
     intros _. destruct (I2 Hup) as [H|H]; [left; exact H|right].
     destruct H as [H|(j & q & Hin & Hq)]; [left; exact H|right]. exists j, q. cbn. split; [apply in_or_app; left; exact Hin|exact Hq].
